@@ -44,6 +44,8 @@ FORMS = {
     "words": "[words(s), unwords(words(s))]",
     "unwords": "words(unwords(l))",
     "unlines": "lines(unlines(l))",
+    "words1": "words(s)", "lines1": "lines(s)",
+    "repeat": "[s * n, length(s * n), s * n + s == s * (n + 1) or n < 0]",
     "chr_ord": "String->chr(String->ord(s))",
     "ord_chr": "String->ord(String->chr(n))",
     "length": "length(s)",
@@ -162,6 +164,45 @@ def explore_case(chunk):
             expect(agg, "upper1", {"s": c}, up, "one-to-one-partner")
             expect(agg, "upper1", {"s": "x" + c + "y"}, "X" + up + "Y",
                    "one-to-one-partner")
+        agg.count("cases")
+    return agg
+
+
+def separator_characters():
+    """every character below U+00A1 plus the characters the host counts as
+    white space or as line boundary beyond it"""
+    extra = [0x1680, 0x2000, 0x2001, 0x2002, 0x2003, 0x2004, 0x2005, 0x2006,
+             0x2007, 0x2008, 0x2009, 0x200A, 0x2028, 0x2029, 0x202F, 0x205F,
+             0x3000, 0x180E, 0x200B, 0xFEFF]
+    return [chr(c) for c in list(range(0, 0xA1)) + extra]
+
+
+def explore_separators(chunk):
+    """words splits at blanks, tabs and line ends and nowhere else, lines at
+    line feeds only: one candidate character between two letters"""
+    agg = core.Agg()
+    for c in chunk["chars"]:
+        s = "a" + c + "b"
+        if c in " \t\r\n":
+            expect(agg, "words1", {"s": s}, ["a", "b"], "words-separators")
+        else:
+            expect(agg, "words1", {"s": s}, [s], "words-separators")
+        if c == "\n":
+            expect(agg, "lines1", {"s": s}, ["a", "b"], "lines-separators")
+        elif c != "\r":
+            expect(agg, "lines1", {"s": s}, [s], "lines-separators")
+        agg.count("cases")
+    return agg
+
+
+def explore_repeat(chunk):
+    """s * n is n copies of s (none for n <= 0)"""
+    agg = core.Agg()
+    for s in chunk["strings"]:
+        for n in range(-2, 4):
+            rep = s * max(n, 0)
+            expect(agg, "repeat", {"s": s, "n": n}, [rep, len(rep), True],
+                   "repeat")
         agg.count("cases")
     return agg
 
@@ -468,6 +509,12 @@ def main(tier, seed):
     agg.merge(core.pmap(explore_sprintf_many, [{}]))
     agg.merge(core.pmap(explore_case, [
         {"chars": c} for c in core.chunked(case_characters(), core.NPROC)]))
+    agg.merge(core.pmap(explore_separators, [
+        {"chars": c} for c in core.chunked(separator_characters(),
+                                           core.NPROC)]))
+    agg.merge(core.pmap(explore_repeat, [
+        {"strings": c} for c in core.chunked(
+            ["", "a", "ab", "'", " ", "a\nb", "\u00e9x"], 4)]))
     # chr/ord on boundary code points
     for n in (0, 9, 10, 39, 127, 128, 255, 256, 0xD7FF, 0xE000, 0xFFFF,
               0x10000, 0x10FFFF):
